@@ -100,6 +100,7 @@ TRunBegin ==
   /\ dr' = (Drained /\ EffSel(S(Ev.sel)) \subseteq Cone(W3, conv.sel))
   /\ Judge({})
 
+OldHold(t) == {h \in HoldFor(t) : jobs[h].tgt \notin gp.plan}
 TRunSubmit ==
   /\ Ev.act = "RunSubmit"
   /\ IF gp.pc # "run" \/ Ev.t \notin gp.plan THEN Stuck("C02_set")
@@ -115,6 +116,10 @@ TRunSubmit ==
                                                    [] OTHER -> "local"),
                 HoldFor(Ev.t) # {}>>,
               <<"C08_id_issued", Ev.id = Len(jobs) + 1>>,
+              (* C09: after an interruption, the remaining targets are held behind the jobs accepted earlier  *)
+              (* (the jobs of dependencies that are not part of this run's own plan)                          *)
+              <<"C09_resume_prereq", {h \in S(Ev.hold) \cap JobIds : jobs[h].tgt \notin gp.plan} = OldHold(Ev.t),
+                cnt.faults > 0 /\ OldHold(Ev.t) # {}>>,
               <<"C06_rerun_noop", dr => w.out[Ev.t] = {}, dr>> })
 
 EndClauses(e) == {
